@@ -559,8 +559,31 @@ FLAG_SHAPES = [
 ]
 
 
+FIND_ATOMS = ["${", "}", "last-saved#", "a", "b1", "x.y", "\n", " ", "$", "{", "#", "${a}", "${last-saved#b}", "\u0928\u093e\u092e", "e\u0301", "+", "[", "]"]
+
+
+def corr_find(ctx, texts):
+    """`findRefs` / `refsClosed` of the model vs BRACKETED_TAG_REGEX of the implementation on the same strings"""
+    from pyxform.utils import BRACKETED_TAG_REGEX
+
+    res = ctx.driver.call("refs.find", texts=texts)
+    for t, m in zip(texts, res):
+        ctx.count("find:texts")
+        impl_refs = [[g.group(1) is not None, g.group(2)] for g in BRACKETED_TAG_REGEX.finditer(t)]
+        # every `${` of the text lies in the span of a match (it opens one, or was consumed by the lazy group)
+        spans = [(g.start(), g.end()) for g in BRACKETED_TAG_REGEX.finditer(t)]
+        impl_closed = all(any(a <= i < b for a, b in spans) for i in range(len(t)) if t.startswith("${", i))
+        if impl_refs != m["refs"]:
+            ctx.mismatch("BRACKETED_TAG_REGEX occurrences", {"text": t}, impl_refs, m["refs"])
+        elif impl_closed != m["closed"]:
+            ctx.mismatch("refsClosed", {"text": t}, impl_closed, m["closed"])
+
+
 def corr_whole(ctx, form, holes, survey):
     """every hole of the conversion against the model's `refFor` on the implementation's tree"""
+    srcs = sorted({h["src"] for h in holes})
+    if srcs:
+        corr_find(ctx, srcs)
     tree = survey_tree(survey)
     qs, hs = [], []
     for h in holes:
@@ -773,6 +796,9 @@ def explore(ctx, factor, bs):
             if mres["out"] != "ambiguous":
                 ctx.mismatch("ambiguous name", case, "ambiguous", mres)
             ctx.record(case, True)
+    # the reference regex on adversarial strings (unclosed braces, nested openers, newlines, last-saved prefixes)
+    texts = ["".join(ctx.rng.choice(FIND_ATOMS) for _ in range(ctx.rng.randint(1, 8))) for _ in range(ctx.pick(400, 5000) * factor)]
+    corr_find(ctx, texts)
     # random deeper trees, mixed expressions
     nrand = ctx.pick(300, 6000) * factor
     for i in range(nrand):
